@@ -5,7 +5,11 @@
 #include <amc/vector.hpp>
 
 #include <algorithm>
+#include <cstdio>
+#include <cstdlib>
 #include <initializer_list>
+#include <string>
+#include <tuple>
 #include <new>
 #include <stdexcept>
 #include <type_traits>
@@ -51,6 +55,7 @@ template <class T, bool Arith = std::is_arithmetic<T>::value>
 struct ElemIO {
   static const bool hooks = T::kHooks;
   static const bool arith = false;
+  static const int ledgerMode = 0;  // ledger objects per element: 0 -> one, 1 -> two, 2 -> one unless the value is (0,0)
   static T make(const Val &x) { return T(x.key, x.pay); }
   static Val val(const T &e) { return Val{e.k(), e.p()}; }
   static int state(const T &e) { return T::state_of(e); }
@@ -64,6 +69,7 @@ template <class T>
 struct ElemIO<T, true> {
   static const bool hooks = false;
   static const bool arith = true;
+  static const int ledgerMode = 0;
   static T make(const Val &x) {
     if (x.key == 0 && x.pay == 0) return (g_zeroSign++ & 1) ? T(-0.0) : T(0);
     return T((long long)x.key * 65536 + x.pay);
@@ -76,6 +82,89 @@ struct ElemIO<T, true> {
   static int state(const T &) { return ES_ALIVE; }
   template <class V> static T &emplace_back(V &v, const Val &x) { return v.emplace_back(make(x)); }
   template <class V, class It> static typename V::iterator emplace(V &v, It pos, const Val &x) { return v.emplace(pos, make(x)); }
+  template <class V, class It> static typename V::iterator emplace_member(V &v, It pos, const T &, int) { return v.end() + 0 * (pos - pos); }
+  template <class V> static T &emplace_back_member(V &v, const T &, int) { return v.back(); }
+};
+
+/// std::string elements (what users actually store): short strings live inside the string object (SSO), so a string moved by
+/// raw byte copy keeps pointing into its old place.  (key, pay) is encoded zero-padded so that the lexicographic order of the
+/// strings is the order of the model values; (0, 0) is the empty string (value-initialised element).
+template <>
+struct ElemIO<std::string, false> {
+  typedef std::string T;
+  static const bool hooks = false;
+  static const bool arith = true;  // no member-argument emplace forms, bounded payloads
+  static const int ledgerMode = 0;
+  static T make(const Val &x) {
+    if (x.key == 0 && x.pay == 0) return T();
+    char b[24];
+    snprintf(b, sizeof b, "%03d:%05d", x.key, x.pay);
+    return T(b);
+  }
+  static Val val(const T &e) {
+    if (e.empty()) return Val{0, 0};
+    if (e.size() != 9 || e[3] != ':') return Val{-1, -1};
+    for (size_t i = 0; i < 9; ++i) if (i != 3 && (e[i] < '0' || e[i] > '9')) return Val{-1, -1};
+    return Val{atoi(e.c_str()), atoi(e.c_str() + 4)};
+  }
+  static int state(const T &) { return ES_ALIVE; }
+  template <class V> static T &emplace_back(V &v, const Val &x) { T t = make(x); return v.emplace_back(t.c_str()); }
+  template <class V, class It> static typename V::iterator emplace(V &v, It pos, const Val &x) { T t = make(x); return v.emplace(pos, t.c_str(), t.size()); }
+  template <class V, class It> static typename V::iterator emplace_member(V &v, It pos, const T &, int) { return v.end() + 0 * (pos - pos); }
+  template <class V> static T &emplace_back_member(V &v, const T &, int) { return v.back(); }
+};
+
+/// std::pair elements: the library computes the relocatability of a pair from its two members.
+template <class A, class B>
+struct ElemIO<std::pair<A, B>, false> {
+  typedef std::pair<A, B> T;
+  static const bool hooks = true;
+  static const bool arith = false;
+  static const int ledgerMode = 1;
+  static T make(const Val &x) { return T(std::piecewise_construct, std::forward_as_tuple(x.key, x.pay), std::forward_as_tuple(x.key, x.pay)); }
+  static Val val(const T &e) {
+    if (e.first.k() != e.second.k() || e.first.p() != e.second.p()) return Val{-3, -3};
+    return Val{e.second.k(), e.second.p()};
+  }
+  static int state(const T &e) {
+    int a = A::state_of(e.first), b = B::state_of(e.second);
+    return a == ES_ALIVE ? b : a;
+  }
+  template <class V> static T &emplace_back(V &v, const Val &x) {
+    return v.emplace_back(std::piecewise_construct, std::forward_as_tuple(x.key, x.pay), std::forward_as_tuple(x.key, x.pay));
+  }
+  template <class V, class It> static typename V::iterator emplace(V &v, It pos, const Val &x) {
+    return v.emplace(pos, std::piecewise_construct, std::forward_as_tuple(x.key, x.pay), std::forward_as_tuple(x.key, x.pay));
+  }
+  template <class V, class It> static typename V::iterator emplace_member(V &v, It pos, const T &src, int pay) {
+    return v.emplace(pos, std::piecewise_construct, std::forward_as_tuple(src.first.key_, pay), std::forward_as_tuple(src.second.key_, pay));
+  }
+  template <class V> static T &emplace_back_member(V &v, const T &src, int pay) {
+    return v.emplace_back(std::piecewise_construct, std::forward_as_tuple(src.first.key_, pay), std::forward_as_tuple(src.second.key_, pay));
+  }
+};
+
+/// A container of the library as element type: an inline SmallVector holding one identity-recording element (or none for the
+/// value (0, 0)).  Whether the outer vector may move it by raw byte copy is decided by the library's own trait for it.
+template <class E, class Al, class Sz, class Pol, Sz N>
+struct ElemIO<amc::Vector<E, Al, Sz, Pol, N>, false> {
+  typedef amc::Vector<E, Al, Sz, Pol, N> T;
+  static const bool hooks = true;
+  static const bool arith = true;  // no member-argument emplace forms
+  static const int ledgerMode = 2;
+  static T make(const Val &x) {
+    T t;
+    if (x.key != 0 || x.pay != 0) t.emplace_back(x.key, x.pay);
+    return t;
+  }
+  static Val val(const T &e) {
+    if (e.empty()) return Val{0, 0};
+    if (e.size() != 1) return Val{-4, -4};
+    return Val{e.front().k(), e.front().p()};
+  }
+  static int state(const T &e) { return e.empty() ? (int)ES_ALIVE : E::state_of(e.front()); }
+  template <class V> static T &emplace_back(V &v, const Val &x) { return (x.key || x.pay) ? v.emplace_back((Sz)1, E(x.key, x.pay)) : v.emplace_back(); }
+  template <class V, class It> static typename V::iterator emplace(V &v, It pos, const Val &x) { return (x.key || x.pay) ? v.emplace(pos, (Sz)1, E(x.key, x.pay)) : v.emplace(pos); }
   template <class V, class It> static typename V::iterator emplace_member(V &v, It pos, const T &, int) { return v.end() + 0 * (pos - pos); }
   template <class V> static T &emplace_back_member(V &v, const T &, int) { return v.back(); }
 };
@@ -390,6 +479,7 @@ struct VecAdapter {
     t->elemTR = amc::is_trivially_relocatable<T>::value;
     t->elemHooks = ElemIO<T>::hooks;
     t->elemArith = ElemIO<T>::arith;
+    t->ledgerMode = ElemIO<T>::ledgerMode;
     t->elemNoexceptMove = std::is_nothrow_move_constructible<T>::value;
     t->claimsTR = amc::is_trivially_relocatable<V>::value;
     t->sizeSigned = std::is_signed<S>::value;
@@ -459,15 +549,18 @@ struct VecPairAdapter {
 template <class... Vs>
 struct FamilyBuilder {
   template <class A>
-  static void row(std::vector<VecPair> &out) { (out.push_back(VecPairAdapter<A, Vs>::make()), ...); }
+  static void row(std::vector<VecPair> &out) {
+    int expand[] = {0, (out.push_back(VecPairAdapter<A, Vs>::make()), 0)...};  // (no fold expressions: the vector engine also builds as C++14)
+    (void)expand;
+  }
   static VecFamily *build(const char *name, const char *elem, std::initializer_list<const char *> typeNames) {
     VecFamily *f = new VecFamily();
     f->name = name; f->elem = elem;
     auto it = typeNames.begin();
-    (f->types.push_back(VecAdapter<Vs>::make_type(*it++)), ...);
+    { int expand[] = {0, (f->types.push_back(VecAdapter<Vs>::make_type(*it++)), 0)...}; (void)expand; }
     f->pairs.resize(sizeof...(Vs));
     size_t i = 0;
-    ((row<Vs>(f->pairs[i++])), ...);
+    { int expand[] = {0, (row<Vs>(f->pairs[i++]), 0)...}; (void)expand; }
     return f;
   }
 };
